@@ -88,11 +88,11 @@ PROPS["C18"] = {
 PROPS["C17"] = {
     "harness": "countersim", "test": "TestC17", "quick_s": 20, "thorough_s": 600, "batch": 200,
     "rule": "one evaluation = one simulated history on a real RollingCounter or RatioCounter: drawn bucket count 1-20, resolution (1s, 1.5s, 2s, 2.5s, 7s, 1min, 1h, random whole and fractional >= 1s), epoch not aligned to the resolution, "
-            "3-120 operations (Inc/IncA/IncB, Count/Ratio/Clone reads, Reset, clock steps from sub-resolution to 50 windows); oracle = reference list with the two window sums; non-trivial = at least one read with a non-empty reference window; "
+            "3-120 operations on a population of up to four counters (Inc/IncA/IncB, Count/Ratio reads, Reset, Clone with the clone kept and used later, Append of one counter to another, clock steps from sub-resolution to 50 windows); in one run of four the clock is a running one (time passes before individual clock reads of a call, up to and across slot boundaries) and calls occupy intervals; oracle = per-counter reference list with the two window sums as interval bounds; non-trivial = at least one read with a non-empty reference window; "
             "distinct = hash of the read results",
     "technique": "deterministic simulation restricted to its clock dimension: seeded increment/read histories over a simulated clock against a reference event list (window-sum bounds); no schedule or fault dimension exists for this property",
     "level_text": "seeded search over histories, bucket counts, resolutions and clock steps of the real counters; sampled, not exhaustive",
-    "level_note": "trusted: frozen clock as only time source, rapid; boundaries are lenient (lower bound over increments strictly younger than (N-1)r, upper bound over increments not older than N*r)",
+    "level_note": "trusted: simulated clock as only time source, rapid; boundaries are lenient (lower bound over increments strictly younger than (N-1)r, upper bound over increments not older than N*r)",
     "assumptions": ["only forward clock steps", "non-negative increments"],
 }
 
